@@ -211,7 +211,11 @@ def run(ctx):
     va = inc.calls('validate::validate_packet_inbound_internal')
     ctx.ob(len(dc) == 1 and len(va) == 1 and len(hp_calls) == 1 and inc.dominates(dc[0].bb, va[0].bb) and inc.dominates(va[0].bb, hp_calls[0].bb), 'incoming data: decode, then validate, then handle', 'pipeline-order', loc=inc.loc())
     for c in hp_calls:
-        requires(ctx, inc, c.bb, [r'^validate::validate_packet_inbound_internal\(.* is Ok$', r'^Decoder::decode_bytes\(.* is Ok$'], 'pipeline-guards', 'handling a packet', loc=c.loc())
+        requires(ctx, inc, c.bb, [r'^validate::validate_packet_inbound_internal\(.* is Ok$'], 'pipeline-guards', 'handling a packet', loc=c.loc())
+    # (changed with defect 19) packets completely received in front of a malformed one may be handled; what the property needs is that a
+    # decode failure always ends the call with an error (nothing is emitted afterwards: the engine is halted by the caller on every Err)
+    ra_d = prims.rets_after(inc, [r'^Decoder::decode_bytes\(.* is Err$'])
+    ctx.ob(ra_d is not None and bool(ra_d) and all(x == 'Err' or x.startswith('Decoder::decode_bytes(') for x in ra_d), 'incoming data: after a decode failure every path returns an error (%s)' % sorted(ra_d or ['decode test not found'])[:3], 'pipeline-decode-error', loc=inc.loc())
 
     # ------------------------------------------------------------ R-C11-5
     ctx.rule('R-C11-5', 'T1 invariant maintenance', 'I4/I5: negotiated settings become Some exactly at the CONNACK success site and None only in reset; the CONNACK deadline is cleared only where PendingConnack is left')
